@@ -479,3 +479,64 @@ def map_lang(d: DFA, f) -> DFA:
 
 def dfa_of(pattern: str, alphabet: List[int], flags: int = 0) -> DFA:
     return compile_dfa(Regex(pattern, flags), alphabet)
+
+
+def prefix_closure(d: DFA) -> DFA:
+    """{ p : p is a prefix of some word of L(d) }"""
+    live = d.live_states()
+    out = DFA(d.alphabet)
+    out.delta = [dict(x) for x in d.delta]
+    out.accept = [q in live for q in range(d.n)]
+    return out
+
+
+def then_anything(d: DFA) -> DFA:
+    """L(d) . Sigma*  (every word that has a prefix in L(d))"""
+    return determinise(d.alphabet, [(0, d.accept[0])], lambda q, ch: [(d.delta[q[0]][ch], True)] if q[1] else [(d.delta[q[0]][ch], d.accept[d.delta[q[0]][ch]])], lambda q: q[1])
+
+
+def complement(d: DFA) -> DFA:
+    out = DFA(d.alphabet)
+    out.delta = [dict(x) for x in d.delta]
+    out.accept = [not a for a in d.accept]
+    return out
+
+
+def longest_word(d: DFA) -> Optional[int]:
+    """Length of the longest word of L(d), or None if the language is infinite (a cycle through live, reachable states)."""
+    live = d.live_states()
+    if 0 not in live:
+        return -1
+    # reachable & live sub-graph
+    reach = {0}
+    st = [0]
+    while st:
+        q = st.pop()
+        for t in set(d.delta[q].values()):
+            if t in live and t not in reach:
+                reach.add(t)
+                st.append(t)
+    color: Dict[int, int] = {}
+    best: Dict[int, int] = {}
+
+    def dfs(q: int) -> Optional[int]:
+        # longest path (in edges) from q to an accepting state inside the sub-graph; None on a cycle
+        if color.get(q) == 1:
+            return None
+        if color.get(q) == 2:
+            return best[q]
+        color[q] = 1
+        b = 0 if d.accept[q] else -10 ** 9
+        for t in set(d.delta[q].values()):
+            if t in reach:
+                r = dfs(t)
+                if r is None:
+                    return None
+                b = max(b, r + 1)
+        color[q] = 2
+        best[q] = b
+        return b
+
+    import sys as _sys
+    _sys.setrecursionlimit(max(_sys.getrecursionlimit(), 10000))
+    return dfs(0)
